@@ -35,7 +35,7 @@ OUT = os.path.join(os.path.dirname(os.path.abspath(__file__)), "..", "coq", "the
 # class -> { attribute text : (gallina name, type) }
 FIELDS = {
     "CFDivisor": {"self.degrees": ("self_degrees", "dictZ"), "self.graph.graph": ("self_graph_graph", "dictD"), "self.total_degree": ("self_total_degree", "Z"), "self.graph.vertices": ("self_graph_vertices", "set")},
-    "CFGraph": {"self.graph": ("self_graph", "dictD"), "self.vertex_total_valence": ("self_vertex_total_valence", "dictZ"), "self.total_valence": ("self_total_valence", "Z")},
+    "CFGraph": {"self.graph": ("self_graph", "dictD"), "self.vertex_total_valence": ("self_vertex_total_valence", "dictZ"), "self.total_valence": ("self_total_valence", "Z"), "self.vertices": ("self_vertices", "set")},
     "CFiringScript": {"self._script": ("self_script", "dictZ"), "self.graph.vertices": ("self_graph_vertices", "set")},
     "CFConfig": {"self.graph.graph": ("self_graph_graph", "dictD"), "self.graph.vertices": ("self_graph_vertices", "set"), "self.q_vertex": ("self_q_vertex", "key")},
     "CFOrientation": {"self.orientation": ("self_orientation", "dictD"), "self.graph.graph": ("self_graph_graph", "dictD"), "self.in_degree": ("self_in_degree", "dictZ"),
@@ -54,7 +54,7 @@ TARGETS = [
     ("chipfiring/CFDivisor.py", "CFDivisor", "__init__"), ("chipfiring/CFDivisor.py", "CFDivisor", "__neg__"), ("chipfiring/CFDivisor.py", "CFDivisor", "__rmul__"),
     ("chipfiring/CFDivisor.py", "CFDivisor", "__add__"), ("chipfiring/CFDivisor.py", "CFDivisor", "__sub__"),
     ("chipfiring/CFGraph.py", "CFGraph", "is_loopless"), ("chipfiring/CFGraph.py", "CFGraph", "get_valence"), ("chipfiring/CFGraph.py", "CFGraph", "add_edge"),
-    ("chipfiring/CFGraph.py", "CFGraph", "add_edges"),
+    ("chipfiring/CFGraph.py", "CFGraph", "add_edges"), ("chipfiring/CFGraph.py", "CFGraph", "__init__"),
     ("chipfiring/CFiringScript.py", "CFiringScript", "get_firings"), ("chipfiring/CFiringScript.py", "CFiringScript", "set_firings"),
     ("chipfiring/CFiringScript.py", "CFiringScript", "update_firings"),
     ("chipfiring/CFConfig.py", "CFConfig", "get_out_degree_S"),
@@ -103,6 +103,8 @@ class Fn:
             if e.value is False: return "false", "bool"
             if type(e.value) is int: return ("%d" % e.value if e.value >= 0 else "(%d)" % e.value), "Z"
             bad(e, "constant")
+        if isinstance(e, ast.Name) and self.env.get(e.id) == "edges" and getattr(self, "in_test", False):
+            return "(negb (match %s with [] => true | _ :: _ => false end))" % e.id, "bool"       # `if edges:` - a non-empty list
         if isinstance(e, ast.Name):
             if e.id not in self.env: bad(e, "unknown name " + e.id)
             return e.id, self.env[e.id]
@@ -153,7 +155,7 @@ class Fn:
             return "(map (fun '(%s, %s) => %s) %s)" % (a_, b_, out_, src), to_
         if isinstance(e, ast.Compare) and len(e.ops) == 1 and isinstance(e.ops[0], (ast.Eq, ast.NotEq)) and isinstance(e.left, ast.Call) and isinstance(e.comparators[0], ast.Call) \
                 and ast.unparse(e.left.func) == "len" and ast.unparse(e.comparators[0].func) == "len" and len(e.left.args) == 1 and isinstance(e.left.args[0], ast.Name) \
-                and ast.unparse(e.comparators[0].args[0]) == "set(%s)" % e.left.args[0].id and self.env.get(e.left.args[0].id) == "keys":
+                and ast.unparse(e.comparators[0].args[0]) == "set(%s)" % e.left.args[0].id and self.env.get(e.left.args[0].id) in ("keys", "set"):
             # len(xs) == len(set(xs)): no name occurs twice
             t = "(nodupb %s)" % e.left.args[0].id; return (t if isinstance(e.ops[0], ast.Eq) else "(negb %s)" % t), "bool"
         f = self.field(e) if isinstance(e, ast.Attribute) else None
@@ -379,8 +381,10 @@ class Fn:
                 self.env[tg.id] = ty; body = K(); self.pending = pre
                 return self.wrap("let %s := %s in\n  %s" % (tg.id, t, body))
             if isinstance(tg, ast.Subscript): return self.store(s, tg, None, s.value, K)
-            if isinstance(tg, ast.Attribute) and self.field(tg) and self.field(tg)[1] in ("Z", "bool", "dictZ"):
-                f = self.field(tg, write=True); t, ty = self.expr(s.value)
+            if isinstance(tg, ast.Attribute) and self.field(tg) and self.field(tg)[1] in ("Z", "bool", "dictZ", "dictD", "set"):
+                f = self.field(tg, write=True)
+                if isinstance(s.value, ast.Dict) and not s.value.keys and f[1] in ("dictZ", "dictD"): t, ty = "[]", f[1]       # {}
+                else: t, ty = self.expr(s.value)
                 if ty != f[1]: bad(s, "field %s assigned a value of type %s" % (f[0], ty))
                 pre = self.pending; self.pending = []; body = K(); self.pending = pre
                 return self.wrap("let %s := %s in\n  %s" % (f[0], t, body))
@@ -460,7 +464,7 @@ class Fn:
                 return self.wrap("match (if %s then\n  %s\n  else\n  %s) with PyExn e_ => PyExn e_ | PyOk %s =>\n  %s end" % (c, a.replace("JOIN_", "PyOk %s" % st), b.replace("JOIN_", "PyOk %s" % st), st, body))
             return self.wrap("let %s := (if %s then\n  %s\n  else\n  %s) in\n  %s" % (pat, c, a.replace("JOIN_", st), b.replace("JOIN_", st), body))
         if isinstance(s, ast.If):
-            c, tc = self.expr(s.test)
+            self.in_test = isinstance(s.test, ast.Name); c, tc = self.expr(s.test); self.in_test = False
             if tc != "bool": bad(s, "condition of type " + tc)
             pre = self.pending; self.pending = []
             env0 = dict(self.env); a = self.stmts(s.body, K); self.env = dict(env0)
@@ -517,6 +521,11 @@ class Fn:
         bad(s, "statement " + ast.unparse(s)[:50])
     def store(self, s, tg, op, value, K):
         """self.f[k] (op)= e   and   self.f[a][b] (op)= e"""
+        if isinstance(value, ast.Dict) and not value.keys and op is None and isinstance(tg.value, ast.Attribute) and (self.field(tg.value) or (None, None))[1] == "dictD":
+            f = self.field(tg.value, write=True); kx, tk = self.expr(tg.slice)
+            if tk != "key": bad(s)
+            pre = self.pending; self.pending = []; body = K(); self.pending = pre
+            return self.wrap("let %s := d_set %s [] %s in\n  %s" % (f[0], kx, f[0], body))
         v, tv = self.expr(value)
         if tv != "Z": bad(s, "stored value of type " + tv)
         if isinstance(tg.value, ast.Attribute):
@@ -557,6 +566,8 @@ class Fn:
         body = self.stmts(n.body, lambda: "END_")
         if self.rty is not None and "END_" in body: bad(n, "control can reach the end of a method that returns a value")
         if n.name == "__init__":
+            for f_ in self.writes:
+                if f_ not in self.reads: self.reads.append(f_)
             # a constructor starts from nothing: every field it reads must first be assigned by a plain top-level `self.f = e` (a `let` that shadows the parameter), which is then dropped
             inv = {v[0]: k for k, v in FIELDS[self.cls].items()}
             for f_ in list(self.reads):
@@ -564,6 +575,8 @@ class Fn:
                 tgt_ = first.target if isinstance(first, ast.AnnAssign) else (first.targets[0] if isinstance(first, ast.Assign) and len(first.targets) == 1 else None)
                 if tgt_ is None or ast.unparse(tgt_) != inv[f_] or inv[f_] in ast.unparse(first.value): bad(n, "a constructor reads the field %s before assigning it" % f_)
                 self.reads.remove(f_)
+                # (a `raise` before the assignment leaves no object behind; the state an exception carries out of a constructor is a placeholder)
+                body = "let %s := %s in\n  %s" % (f_, {"Z": "0", "bool": "false", "dictZ": "(@nil (nat * Z))", "dictD": "(@nil (nat * dictZ))", "set": "(@nil nat)"}[FIELDS[self.cls][inv[f_]][1]], body)
         opt = self.can_raise
         ftypes0 = {v[0]: COQTY[v[1]] for v in FIELDS[self.cls].values()}
         wt = " * ".join(ftypes0[w] for w in self.writes) if self.writes else "unit"          # the state an exception leaves behind: the written fields
